@@ -197,7 +197,7 @@ def correspond(ctx):
     corr.ensure_driver()
     rng = ctx.rng
     # (a) model vs implementation, boundary-heavy
-    n = 110 if not ctx.thorough else 900
+    n = 400 if not ctx.thorough else 3000
     groups = []
     for i in range(n):
         g = gen.rand_grammar(rng, rng.randint(2, 4), dict(names=(i % 2 == 0), actions=(i % 3 == 0), stops=True, fwd=True, extra=True, ws=(i % 4 == 0), fatal=True))
